@@ -918,6 +918,7 @@ class Normaliser:
     def _inline_function(self, fn: ast.FunctionDef, cls: ClassInfo | None) -> None:
         decos = _decorators(self.world, fn)
         me = fn.args.args[0].arg if fn.args.args and cls is not None and 'staticmethod' not in decos else None
+        self.me_is_class = 'classmethod' in decos
         self.budget = 60
         for _ in range(MAX_ROUNDS):
             changed = self._block(fn.body, fn, cls, me)
@@ -1104,13 +1105,23 @@ class Normaliser:
             kind = 'static' if 'staticmethod' in decos else 'class' if 'classmethod' in decos else 'method'
             if decos - {'staticmethod', 'classmethod'}:
                 return None
+            if kind == 'class' and bound is not None and getattr(self, 'me_is_class', False):
+                return r.node, r.owner.module.name, bound, 'unbound-class'  # the receiver is already the class
             return r.node, r.owner.module.name, bound if bound is not None else recv, kind if bound is not None else ('unbound-' + kind)
         return None
 
     # -------------------------------------------------------------- argument binding
     def _bind(self, call: ast.Call, callee: ast.FunctionDef, recv: ast.AST | None, kind: str) -> list[tuple[str, ast.AST]]:
         a = callee.args
-        if a.kwarg or any(isinstance(x, ast.Starred) for x in call.args) or any(k.arg is None for k in call.keywords):
+        kwarg_pair = None
+        spreads = [k for k in call.keywords if k.arg is None]
+        if a.kwarg and len(spreads) == 1 and isinstance(spreads[0].value, ast.Name) and len(call.keywords) == 1:
+            # f(**kw) received as **overrides and only passed on: the dictionary is the caller's
+            kwarg_pair = (a.kwarg.arg, spreads[0].value)
+            call = ast.Call(func=call.func, args=list(call.args), keywords=[])
+        elif a.kwarg or spreads:
+            raise NotInlinable('variadic')
+        if any(isinstance(x, ast.Starred) for x in call.args):
             raise NotInlinable('variadic')
         params = [p.arg for p in a.posonlyargs + a.args]
         vararg_pair = None
@@ -1158,6 +1169,8 @@ class Normaliser:
             raise NotInlinable('unexpected keyword')
         if vararg_pair is not None:
             pairs.append(vararg_pair)
+        if kwarg_pair is not None:
+            pairs.append(kwarg_pair)
         return pairs
 
     def _prepare(self, call: ast.Call, hit, fn: ast.FunctionDef):
